@@ -157,6 +157,7 @@ Definition srec_step (c : cfg) (rest : list (list Z)) (v : sv) (r : list Z) : sv
   | [37; b] => with_api v (v_gone v) (v_exited v) (dec_bool b)
   | [38] => v
   | [39; _] => v
+  | [44; p] => with_api v (remz p (v_gone v)) (remz p (v_exited v)) (v_apierr v)   (* a new instance of the name: the API has the pod again, its uid differs *)
   | 99 :: _ =>
       let v1 := pool_rec c rest v r in
       let w := v_w v1 in
@@ -220,6 +221,11 @@ Definition so_step (prop : Z) (ns : nat) (snaps : list (list ssnap)) (o : so) (r
       if (31 <=? k) && (k <=? 33) then
         so_upd o (o_store o) (o_ack o) (mkRpc rid (k - 30) pod cid (existsb (fun x => p_pod x =? pod) (o_rpcs o)) :: o_rpcs o)
                (o_gonep o) (o_apie o) (o_ingc o) (o_failed o) (o_restarted o)
+      else if k =? 22 then
+        (* a release reaches the interface: slot(rid) pod(pod) eni(cid) a4 a6 handled uidPassed uidStored.
+           C03: the teardown is reported under the uid recorded with the allocation, not under whatever uid the
+           API shows for that name now *)
+        (if prop =? 3 then match rest with _ :: _ :: _ :: up :: ua :: _ => so_req o (up =? ua) 351 | _ => o end else o)
       else if k =? 42 then
         (* store: op(rid) pod(pod) cid(cid) eni a4 a6 *)
         match rest with
@@ -350,4 +356,5 @@ Definition svc_obs (prop : Z) (i out : list Z) : so :=
 Definition chk_c04 (i o : list Z) : bool := o_good (svc_obs 4 i o).
 Definition chk_c05 (i o : list Z) : bool := o_good (svc_obs 5 i o).
 Definition chk_c09 (i o : list Z) : bool := o_good (svc_obs 9 i o).
+Definition chk_c03d (i o : list Z) : bool := o_good (svc_obs 3 i o).
 Definition why_svc (prop : Z) (i o : list Z) : Z := o_y (svc_obs prop i o) * 100000.
